@@ -39,9 +39,9 @@ type Env struct {
 	Dist    map[string]int
 	Samples []any
 	// monitor violations: each is a replayable description
-	Violations []map[string]any
-	distinct   map[uint64]struct{}
-	Evals      int
+	Violations   []map[string]any
+	distinct     map[uint64]struct{}
+	Evals        int
 	unattributed int
 	mu           sync.Mutex // protects the protocol writers (Emit vs the background flusher / the watchdog)
 	stopFlush    chan struct{}
